@@ -123,6 +123,8 @@ json_endpoints! {
     fn small_body(body: String) -> String;
     fn safe_mix(auth_: BearerToken, safe_path: String, unsafe_path: String, safe_query: String, unsafe_query: String, safe_header: String, unsafe_header: String, dnl_query: Option<String>, enum_query: Option<Color>, unsafe_enum_query: Option<Color>) -> ();
     fn safe_body(id: i32, body: Payload) -> i32;
+    fn enum_map_body(id: i32, body: BTreeMap<Color, StrAlias>) -> ();
+    fn safe_enum_map_body(id: i32, body: BTreeMap<Color, Vec<Color>>) -> ();
     fn noop() -> ();
 }
 
